@@ -170,7 +170,7 @@ func main() {
 			w.Env = append(env(),
 				"VERIF_TIER="+tier, fmt.Sprintf("VERIF_SHARD=%d/%d", i, n), "VERIF_OUT="+out,
 				"VERIF_BUDGET_S="+strconv.Itoa(budget), "VERIF_SEED="+seed, "VERIF_REPLAY="+replay,
-				"VERIF_SCRATCH="+sd, "VERIF_ROOT="+root, "VERIF_REPO="+repo, "VERIF_PROPERTY="+id,
+				"VERIF_SCRATCH="+sd, "VERIF_OVERLAY="+filepath.Join(build, "overlay.json"), "VERIF_ROOT="+root, "VERIF_REPO="+repo, "VERIF_PROPERTY="+id,
 				"GOMAXPROCS="+strconv.Itoa(gmp), "TMPDIR="+sd)
 			w.Stdout, w.Stderr = logf, logf
 			err := w.Run()
